@@ -17,14 +17,19 @@ def reg_fast():
 def run(tier, seed):
     rep = Report('C09', tier, seed)
     quals = {'_process_trans_SIR_', '_process_rec_SIR_', 'myQueue.add', 'myQueue.pop_and_run', 'event_step_SIR', 'fast_nonMarkov_SIR'}
-    rep.add_unit_results(util.run_jobs(util.jobs_for(reg_fast, tier=tier, quals=quals)))
+    jobs = util.jobs_for(reg_fast, tier=tier, quals=quals)
+    # Gillespie_SIR / Gillespie_SIS: the candidate-set invariants (IS_links = exactly the pairs infected -> susceptible along an edge) make
+    # every chosen (transmitter, recipient) a causally valid transmission
+    from . import C01
+    jobs += C01.quick_filter(util.jobs_for(C01.reg, quals={'Gillespie_SIR', 'Gillespie_SIS'}, tier=tier), tier)
+    rep.add_unit_results(util.run_jobs(jobs))
     for ob in binding.ctor_obligations():
         rep.add(ob)
     from ..replay import investigation_native as N
     rep.add(util.native_ob('native:transmissions-valid-and-complete', 'EoN/simulation.py:(all simulators with transmissions)', N.check_modes_agree,
                            '10 simulator configurations x 3 seeds on a 7-node graph: every sourced entry goes along an edge from a node infectious at that time to a node turning S->I then (next step for the discrete simulator), one entry per infection, time-ordered, SIR: forest'))
     rep.add(util.native_ob('native:simple-contagion-transmissions-valid', 'EoN/simulation.py:Gillespie_simple_contagion', N.check_simple_contagion_transmissions,
-                           '7 model specifications (incl. a rule whose inducing status equals the status acted on) x directed/undirected 6-node graphs x 3 seeds: every entry goes along an edge, '
+                           '9 model specifications (incl. a rule whose inducing status equals the status acted on) x directed/undirected 6-node graphs x 3 seeds: every entry goes along an edge, '
                            'matches a status change of the target that is an induced transition for the source\'s status at that time; changes without an entry are spontaneous transitions'))
     rep.level = 'other'
     rep.explanation = ('Unbounded, event-driven SIR (fast_nonMarkov_SIR / fast_SIR): the handler appends an entry (time, source, target) exactly when the target turns S->I at that '
